@@ -13,9 +13,15 @@
   OS routine clears MCR and nothing else a user program can observe changes; at an exception
   (`real_exception_prints`, Lemmas/OsExc) `step` enters the handler, the display receives exactly the OS message for
   that exception and the machine halts through the OS.  These use C11's routine contracts (PUTS, HALT), hence their
-  hypotheses (OS loaded, non-strict, supervisor stack in plain memory, quiet poll at the instruction boundaries).
-  The concatenation of prefix + final segment into one `run` statement is checked end-to-end by the correspondence
-  oracle (paired virtual/real runs).
+  hypotheses (OS loaded, non-strict, supervisor stack in plain memory, devices in a quiet set `Q` — e.g. the default devices,
+  `Rt.stdDev_quiet`); `Rt.feN n` is `n` calls of the public `step`.
+  `halting_program` concatenates prefix and final segment for a program that halts: n common instructions, then the
+  virtual machine stops with the halt break and the real-trap machine clears MCR three steps later, same registers,
+  memory (up to two supervisor-stack cells) and devices.  `excepting_program` does the same for a program that ends in an exception:
+  the calculus of Lemmas/RealRel is parametric in the set of breaks at which the two machines may part; inside a step
+  without pending interrupt that set is {HALT} (`RT.trap_vect_halt`: a TRAP instruction can name no other virtualised
+  vector), so an inner step that fails with an exception fails identically under real traps
+  (`RT.stepInner_exception_same`); then `step` vectors it, the message is printed and the machine halts through the OS.
 -/
 import Lc3V.Props.C11
 import Lc3V.Lemmas.RealRel
@@ -65,7 +71,7 @@ theorem real_step_same (s s' : Sim) (hv : s.flags.realTraps = false) (h : Sim.st
   have hr := RT.step_real_rel s hv
   rw [h] at hr
   obtain ⟨_, hrr⟩ := hr
-  rcases hrr with ⟨e, he⟩ | hrr
+  rcases hrr with ⟨e, _, he⟩ | hrr
   · cases he
   · exact hrr
 
@@ -111,7 +117,7 @@ def excVector : SimErr → Option (Nat × String)
     exception in state `s'` and real traps are enabled there, then the public `step` enters the OS handler instead
     of reporting the error, and after finitely many further instructions the display has received exactly the OS
     message for that exception and the machine has halted through the OS (MCR bit clear), registers R1-R5 untouched -/
-theorem real_exception_prints (s s' : Sim) (e : SimErr) (vect : Nat) (msg : String) (d' : DevHandler)
+theorem real_exception_prints {Q : DevHandler → Prop} (QS : Rt.QuietSet Q) (s s' : Sim) (hq : Q s'.dev) (e : SimErr) (vect : Nat) (msg : String) (d' : DevHandler)
     (hin : stepInner s = (.error (.err e), s')) (hv : excVector e = some (vect, msg))
     (hr : s'.flags.realTraps = true) (hos : Rt.OsLoaded s') (hs : s'.flags.strict = false)
     (h1 : 767 ≤ (C10.entrySp s' - 1).toNat ∧ (C10.entrySp s' - 1).toNat < IO_START)
@@ -132,7 +138,7 @@ theorem real_exception_prints (s s' : Sim) (e : SimErr) (vect : Nat) (msg : Stri
       ∃ k f, (Sim.step >>= fun _ => Rt.feN k) s = (.ok (), f) ∧ f.mcr = false ∧ f.dev = d' ∧
         (∀ r, r ≠ 0 → r ≠ 7 → r ≠ R6 → f.reg r = s'.reg r) := by
     intro vd hchk hterm hlen hstep
-    obtain ⟨k, f, hf, rest⟩ := Rt.exception_prints s' vect msg d' hos hs hr vd hchk hterm hlen h1 h2 h3 h4 hc l4 l6 lm hem
+    obtain ⟨k, f, hf, rest⟩ := Rt.exception_prints QS s' hq vect msg d' hos hs hr vd hchk hterm hlen h1 h2 h3 h4 hc l4 l6 lm hem
     refine ⟨k, f, ?_, rest⟩
     rw [SimM.bind_apply, hstep]
     rw [SimM.bind_apply] at hf
@@ -146,18 +152,142 @@ theorem real_exception_prints (s s' : Sim) (e : SimErr) (vect : Nat) (msg : Stri
 /-- **HALT under real traps stops through the OS.** A `TRAP x25` fetched and executed with real traps enabled
     enters the OS routine, which clears the MCR bit (the run loop then stops: `Rt.mcr_off_stops`); R0-R5, the devices
     and all memory below the I/O page except the two supervisor-stack cells are untouched -/
-theorem real_halt_through_os (s : Sim) (hos : Rt.OsLoaded s) (hs : s.flags.strict = false)
+theorem real_halt_through_os {Q : DevHandler → Prop} (QS : Rt.QuietSet Q) (s : Sim) (hq : Q s.dev) (hos : Rt.OsLoaded s) (hs : s.flags.strict = false)
     (hrt : s.flags.realTraps = true) (hat : Rt.AtTrap s 0x25)
     (h1 : 767 ≤ (C10.entrySp s - 1).toNat ∧ (C10.entrySp s - 1).toNat < IO_START)
     (h2 : 767 ≤ (C10.entrySp s - 2).toNat ∧ (C10.entrySp s - 2).toNat < IO_START)
     (hm : s.iregLookup 0xFFFE = some .mcr) :
     ∃ f, Rt.feN 3 s = (.ok (), f) ∧ f.mcr = false ∧ (∀ r, r ≠ 7 → r ≠ R6 → f.reg r = s.reg r) ∧ f.dev = s.dev ∧
       (∀ a : W, a.toNat < IO_START → a ≠ C10.entrySp s - 1 → a ≠ C10.entrySp s - 2 → f.memAt a = s.memAt a) :=
-  Rt.halt_step s hos hs hrt hat h1 h2 hm
+  Rt.halt_step QS s hq hos hs hrt hat h1 h2 hm
+
+/-- `n` successful public steps, as a `SimM` computation and as `okSteps` -/
+theorem feN_okSteps : ∀ (n : Nat) (s s' : Sim), RT.okSteps n s = some s' → Rt.feN n s = (.ok (), s') := by
+  intro n
+  induction n with
+  | zero => intro s s' h; simp only [RT.okSteps, Option.some.injEq] at h; subst h; rfl
+  | succ n ih =>
+    intro s s' h
+    unfold RT.okSteps at h
+    generalize hr : Sim.step s = r at h
+    rcases r with ⟨_ | _, t⟩
+    · simp at h
+    · rw [Rt.feN_succ n hr]; exact ih t s' h
+
+/-- **virtual HALT**: with virtual traps a `TRAP x25` fetched from plain memory stops the step with the halt break;
+    registers, memory and devices are as before the step and the PC is back on the TRAP -/
+theorem virtual_halt_step (s : Sim) (hq : Rt.QuietDev s) (hv : s.flags.realTraps = false) (hs : s.flags.strict = false)
+    (hat : Rt.AtTrap s 0x25) :
+    ∃ t, Sim.step s = (.error .halt, t) ∧ t.regs = s.regs ∧ t.mem = s.mem ∧ t.dev = s.dev := by
+  have hfe : fetchExec s = (virtualBreak .halt (Rt.fetched s)) := by
+    rw [Rt.fetchExec_plain s _ hs hat.perm hat.plain hat.instr, C08.exec_trap, C08.handle_structure]
+    have hvf : (Rt.fetched s).flags.realTraps = false := hv
+    simp only [gated, Bool.false_eq_true, if_false, hvf, Bool.not_false, if_true]
+    have : realIntVect (BitVec.setWidth 16 (0x25 : BitVec 8)) = some .halt := by decide
+    rw [this]
+    simp only []
+    obtain ⟨h1, _⟩ := C08.virtual_break_spec (Rt.fetched s) .halt hs
+    generalize virtualBreak .halt (Rt.fetched s) = r at h1 ⊢
+    rcases r with ⟨_ | _, _⟩
+    · rfl
+    · cases h1
+  obtain ⟨h1, _, _, _, h5, h6⟩ := C08.virtual_break_spec (Rt.fetched s) .halt hs
+  have hst : stepInner s = virtualBreak .halt (Rt.fetched s) := by
+    have h1' : stepInner s = fetchExec (afterPoll s) := by unfold stepInner; rw [hq]
+    have h2 : fetchExec (afterPoll s) = fetchExec s := by
+      rw [Rt.fetchExec_plain (afterPoll s) _ hs hat.perm hat.plain hat.instr, Rt.fetchExec_plain s _ hs hat.perm hat.plain hat.instr]
+      have : Rt.fetched (afterPoll s) = Rt.fetched s := by
+        unfold Rt.fetched afterPoll; rw [hq]; rfl
+      rw [this]
+    rw [h1', h2, hfe]
+  refine ⟨(virtualBreak .halt (Rt.fetched s)).2, ?_, h6, h5, ?_⟩
+  · unfold Sim.step
+    rw [hst]
+    have hfl : (virtualBreak .halt (Rt.fetched s)).2.flags.realTraps = false := by
+      unfold virtualBreak
+      cases hp : (Rt.fetched s).prefetch
+      · simp only [SimM.bind_apply, SimM.getS_apply, hp, Bool.not_false, if_true, offsetPc]
+        rw [Sim.setPc_nonstrict _ _ _ (show (Rt.fetched s).flags.strict = false from hs)]
+        simp only [SimM.modifyS_apply, SimM.throwB_apply]
+        exact hv
+      · simp only [SimM.bind_apply, SimM.getS_apply, hp, Bool.not_true, Bool.false_eq_true, if_false, SimM.throwB_apply]
+        exact hv
+    generalize virtualBreak .halt (Rt.fetched s) = r at h1 hfl ⊢
+    rcases r with ⟨r, t⟩
+    simp only at h1 hfl
+    subst h1
+    simp only [hfl, Bool.not_false, if_true]
+  · unfold virtualBreak
+    cases hp : (Rt.fetched s).prefetch
+    · simp only [SimM.bind_apply, SimM.getS_apply, hp, Bool.not_false, if_true, offsetPc]
+      rw [Sim.setPc_nonstrict _ _ _ (show (Rt.fetched s).flags.strict = false from hs)]
+      simp only [SimM.modifyS_apply, SimM.throwB_apply]
+      rfl
+    · simp only [SimM.bind_apply, SimM.getS_apply, hp, Bool.not_true, Bool.false_eq_true, if_false, SimM.throwB_apply]
+      rfl
+
+/-- **a halting program, end to end.**  Suppose the virtual-trap machine executes `n` instructions from `s` without
+    error and then stands at a `TRAP x25` (state `s'`; there the virtual machine stops with the halt break, registers,
+    memory and devices as in `s'`).  Then the same machine with real traps enabled executes the same `n` instructions,
+    is in the same state, and three more public steps (the TRAP and the OS routine) later the MCR bit is clear — the
+    run loop stops — with R0-R5 and the devices as in `s'` and all memory below the I/O page as in `s'` except the two
+    supervisor-stack cells -/
+theorem halting_program {Q : DevHandler → Prop} (QS : Rt.QuietSet Q) (n : Nat) (s s' : Sim)
+    (hv : s.flags.realTraps = false) (hrun : RT.okSteps n s = some s')
+    (hq : Q s'.dev) (hos : Rt.OsLoaded s') (hs : s'.flags.strict = false) (hat : Rt.AtTrap s' 0x25)
+    (h1 : 767 ≤ (C10.entrySp s' - 1).toNat ∧ (C10.entrySp s' - 1).toNat < IO_START)
+    (h2 : 767 ≤ (C10.entrySp s' - 2).toNat ∧ (C10.entrySp s' - 2).toNat < IO_START)
+    (hm : s'.iregLookup 0xFFFE = some .mcr) :
+    (∃ t, Sim.step s' = (.error .halt, t) ∧ t.regs = s'.regs ∧ t.mem = s'.mem ∧ t.dev = s'.dev) ∧
+    ∃ f, Rt.feN (n + 3) (RT.rt s) = (.ok (), f) ∧ f.mcr = false ∧ (∀ r, r ≠ 7 → r ≠ R6 → f.reg r = s'.reg r) ∧
+      f.dev = s'.dev ∧
+      (∀ a : W, a.toNat < IO_START → a ≠ C10.entrySp s' - 1 → a ≠ C10.entrySp s' - 2 → f.memAt a = s'.memAt a) := by
+  obtain ⟨hpre, hv'⟩ := RT.okSteps_real n s s' hv hrun
+  refine ⟨virtual_halt_step s' (QS.dev hq) hv' hs hat, ?_⟩
+  have hat' : Rt.AtTrap (RT.rt s') 0x25 := ⟨hat.perm, hat.plain, hat.instr⟩
+  obtain ⟨f, hf, a1, a2, a3, a4⟩ := Rt.halt_step QS (RT.rt s') hq hos hs rfl hat' h1 h2 hm
+  refine ⟨f, ?_, a1, a2, a3, a4⟩
+  rw [Rt.feN_add n 3 (feN_okSteps n _ _ hpre)]
+  exact hf
+
+/-- **a faulting program, end to end.**  Suppose the virtual-trap machine executes `n` instructions from `s` without
+    error and then its next instruction fails with a privilege, illegal-instruction or access exception (inner step
+    fails in state `s''`; no interrupt pending).  Then the same machine with real traps enabled executes the same `n`
+    instructions, reaches the same state, fails the same inner step in the same way, enters the OS handler instead of
+    reporting the error, and finitely many instructions later the display has received exactly the OS message for
+    that exception and the machine has halted through the OS (MCR clear), R1-R5 as at the fault -/
+theorem excepting_program {Q : DevHandler → Prop} (QS : Rt.QuietSet Q) (n : Nat) (s s' s'' : Sim) (e : SimErr)
+    (vect : Nat) (msg : String) (d' : DevHandler)
+    (hv : s.flags.realTraps = false) (hrun : RT.okSteps n s = some s')
+    (hpoll : s'.dev.pollInterrupt = (none, s'.dev))
+    (hin : stepInner s' = (.error (.err e), s'')) (hvec : excVector e = some (vect, msg))
+    (hq : Q s''.dev) (hos : Rt.OsLoaded s'') (hs : s''.flags.strict = false)
+    (h1 : 767 ≤ (C10.entrySp s'' - 1).toNat ∧ (C10.entrySp s'' - 1).toNat < IO_START)
+    (h2 : 767 ≤ (C10.entrySp s'' - 2).toNat ∧ (C10.entrySp s'' - 2).toNat < IO_START)
+    (h3 : 767 ≤ (C10.entrySp s'' - 3).toNat ∧ (C10.entrySp s'' - 3).toNat < IO_START)
+    (h4 : 767 ≤ (C10.entrySp s'' - 4).toNat ∧ (C10.entrySp s'' - 4).toNat < IO_START)
+    (hc : Rt.CellsOk (C10.entrySp s'' - 4))
+    (l4 : s''.iregLookup 0xFE04 = none) (l6 : s''.iregLookup 0xFE06 = none) (lm : s''.iregLookup 0xFFFE = some .mcr)
+    (hem : Rt.Emits s''.dev ((C11.str msg).map (BitVec.ofNat 16)) d') :
+    Sim.step s' = (.error (.err e), s'') ∧
+    ∃ k f, Rt.feN (n + (k + 1)) (RT.rt s) = (.ok (), f) ∧ f.mcr = false ∧ f.dev = d' ∧
+      (∀ r, r ≠ 0 → r ≠ 7 → r ≠ R6 → f.reg r = s''.reg r) := by
+  obtain ⟨hpre, hv'⟩ := RT.okSteps_real n s s' hv hrun
+  obtain ⟨hin', hv''⟩ := RT.stepInner_exception_same s' s'' e hv' hpoll hin
+  constructor
+  · unfold Sim.step
+    rw [hin]
+    simp only [hv'', Bool.not_false, if_true]
+  · obtain ⟨k, f, hf, a1, a2, a3⟩ := real_exception_prints QS (RT.rt s') (RT.rt s'') hq e vect msg d' hin' hvec rfl hos hs h1 h2 h3 h4 hc l4 l6 lm hem
+    refine ⟨k, f, ?_, a1, a2, a3⟩
+    rw [Rt.feN_add n (k + 1) (feN_okSteps n _ _ hpre)]
+    exact hf
 
 def obligations : List Lean.Name :=
   [``lockstep, ``other_vectors_same, ``io_traps_not_virtual, ``virtual_breaks, ``exception_handlers,
    ``RT.step_real_rel, ``RT.okSteps_real, ``RT.runLoop_real, ``real_step_same, ``real_prefix_same, ``real_run_same,
-   ``exception_terms, ``Rt.msg_handler, ``Rt.exception_prints, ``real_exception_prints, ``real_halt_through_os]
+   ``exception_terms, ``Rt.msg_handler, ``Rt.exception_prints, ``real_exception_prints, ``real_halt_through_os,
+   ``feN_okSteps, ``virtual_halt_step, ``halting_program,
+   ``RT.stepInner_quiet, ``RT.stepInner_exception_same, ``excepting_program]
 
 end Lc3V.C12
